@@ -402,6 +402,10 @@ def run_pair(case):
     if case.get("twin_instance"):
         dparams = [[torch.nn.Parameter(p.detach().clone()) for p in ps] for ps in params]
         decoy = (dparams, optrun.build_optimizer(case, dparams, dtype=qd))
+        for dps in dparams:               # one step ahead, so that its counters and scalars differ from the instance under test
+            for dp in dps:
+                dp.grad = torch.ones_like(dp)
+        decoy[1].step()
     nblocks = sum(len(optrun.group_handles(opt, gi)[0]) for gi in range(len(params)))
     f64 = lambda t: t.detach().to(torch.float64).reshape(-1).tolist()  # noqa
     flat = lambda pss: [x for ps in pss for p in ps for x in f64(p)]  # noqa
